@@ -82,7 +82,9 @@ def f_kind(blk, pos, named):
     if kind == 'FSub':
         return named['a'] - named['b']
     if kind == 'FPack':
-        return (tuple(pos), tuple(sorted(named.items())))
+        packed = (tuple(pos), tuple(sorted(named.items())))
+        # the 'typed' variant tells equal values of different types apart (True / 1, 0 / False)
+        return repr(packed) if blk.get('typed') else packed
     if kind == 'FGe3':
         return pos[0] >= 3
     raise AssertionError(kind)
@@ -94,6 +96,14 @@ def _pack(*args, **kw):
 
 def _pack1(args, **kw):
     return (tuple(args), tuple(sorted(kw.items())))
+
+
+def _rpack(*args, **kw):
+    return repr(_pack(*args, **kw))
+
+
+def _rpack1(args, **kw):
+    return repr(_pack1(args, **kw))
 
 
 def _fsum(args):
@@ -237,7 +247,21 @@ def cases(draw):
                         'fb': None, 'reset': 'r0'})
         types['rf'] = 'num'
         types['_not_rf'] = 'num'
-    avail = [s['name'] for s in sources] + (['rf'] if selfreset else [])
+    # template "type pun": an Override whose output switches between equal values of different types
+    # (True / 1, False / 0) in front of a function that tells them apart
+    pun = not selfreset and draw(st.integers(0, 5)) == 0
+    if pun:
+        sources.append({'name': 'pa', 'kind': 'InputAny', 'init': draw(st.sampled_from([1, 0, 3, 2]))})
+        sources.append({'name': 'pb', 'kind': 'InputAny', 'init': 8})
+        types['pa'] = types['pb'] = 'any'
+        cblocks.append({'name': 'pv', 'kind': 'Override', 'null': 8, 'pos': [], 'fb': None,
+                        'named': {'input': ['blk', 'pa', 'obj'], 'override': ['blk', 'pb', 'name']}})
+        cblocks.append({'name': 'pt', 'kind': 'FPack', 'unpack': True, 'typed': True, 'fb': None,
+                        'pos': [['blk', 'pv', 'name']], 'named': {}})
+        for n in ('pv', 'pt'):
+            types[n] = 'any'
+            types['_not_' + n] = 'num'
+    avail = [s['name'] for s in sources] + (['rf'] if selfreset else []) + (['pv', 'pt'] if pun else [])
 
     def ref(need_num, usable):
         cands = [n for n in usable if not need_num or types[n] == 'num']
@@ -289,6 +313,7 @@ def cases(draw):
             t = 'num'
         else:   # FPack
             blk['unpack'] = draw(st.booleans())
+            blk['typed'] = draw(st.integers(0, 2)) == 0
             blk['pos'] = [ref(False, usable) for _ in range(draw(st.integers(0, 3)))]
             for iname in draw(st.lists(st.sampled_from(['a', 'b', 'g', 'h']), unique=True, max_size=3)):
                 if iname in ('g', 'h'):
@@ -297,6 +322,10 @@ def cases(draw):
                     blk['named'][iname] = ref(False, usable)
             if not blk['pos'] and not blk['named']:
                 blk['pos'] = [ref(False, usable)]
+            if blk['typed'] and any(r[0] == 'const' and r[1] <= 3 for r in refs_of(blk)):
+                # constants that compare equal (False / 0, True / 1) are one shared Const object in edzed
+                # whichever was created first: the typed variant is used with unambiguous constants only
+                blk['typed'] = False
             t = 'any'
         types[name] = t
         types['_not_' + name] = 'num'
@@ -313,7 +342,7 @@ def cases(draw):
     # keep the evaluation bound (construction, not rejection): drop trailing blocks
     while True:
         bound, nblocks = eval_bound(case)
-        if bound <= 3 * nblocks or len(case['cblocks']) == (2 if selfreset else 1):
+        if bound <= 3 * nblocks or len(case['cblocks']) == (2 if selfreset or pun else 1):
             break
         case['cblocks'].pop()
     last = case['cblocks'][-1]
@@ -349,6 +378,8 @@ def cases(draw):
             elif s['kind'] == 'Counter':
                 op = draw(st.sampled_from(['inc', 'dec', 'put']))
                 burst.append([s['name'], op, draw(st.integers(0, 3))])
+            elif s['name'] in ('pa', 'pb'):
+                burst.append([s['name'], 'put', draw(st.sampled_from([8, 3, 2, 1, 0, 7]))])
             else:
                 burst.append([s['name'], 'put',
                               draw(st.sampled_from(NUM if s['kind'] == 'InputNum' else ANY))])
@@ -522,8 +553,11 @@ def build(case):
         elif kind == 'FSub':
             blk = edzed.FuncBlock(name, func=_fsub, **kw)
         else:
-            blk = edzed.FuncBlock(name, func=_pack if d['unpack'] else _pack1,
-                                  unpack=d['unpack'], **kw)
+            if d.get('typed'):
+                func = _rpack if d['unpack'] else _rpack1
+            else:
+                func = _pack if d['unpack'] else _pack1
+            blk = edzed.FuncBlock(name, func=func, unpack=d['unpack'], **kw)
         args = [mkref(r) for r in d['pos']]
         kwargs = {k: ([mkref(r) for r in v] if is_group(v) else mkref(v))
                   for k, v in d['named'].items()}
